@@ -418,3 +418,27 @@ func (e *engine) srcText(n ast.Node) string {
 	}
 	return string(data[ps.Offset:pe.Offset])
 }
+
+// isLocalVar: the identifier denotes a local variable or parameter (not a
+// struct field selected through x.f, not a package-level object)
+func (e *engine) isLocalVar(fn *ssa.Function, id *ast.Ident) bool {
+	if fn.Pkg == nil {
+		return true
+	}
+	p := e.pkgs[fn.Pkg.Pkg.Path()]
+	if p == nil || p.TypesInfo == nil {
+		return true
+	}
+	obj := p.TypesInfo.Uses[id]
+	if obj == nil {
+		obj = p.TypesInfo.Defs[id]
+	}
+	v, ok := obj.(*types.Var)
+	if !ok {
+		return false
+	}
+	if v.IsField() {
+		return false
+	}
+	return v.Parent() != v.Pkg().Scope()
+}
